@@ -236,6 +236,8 @@ def main(check_factory, argv=None):
     # pinned known findings are re-run on every invocation
     ctx = core.Context(binaries, args.seed, args.tier)
     known_lines = []
+    regressions = []
+    regress_runs = 0
     harness_problem = None
     try:
         check.prepare(ctx)
@@ -250,6 +252,19 @@ def main(check_factory, argv=None):
                 known_lines.append("KNOWN-FINDING: property=%s %s" % (check.prop, finding["what"]))
             else:
                 known_lines.append("NOTE: known finding no longer reproduces: %s" % finding["what"])
+        # cases of repaired defects (replays/regress/<id>-*.json) are replayed first: a returning defect is reported
+        # with the replay that found it the first time
+        regress_dir = os.path.join(core.VERIF, "replays", "regress")
+        for name in sorted(os.listdir(regress_dir)) if os.path.isdir(regress_dir) else []:
+            if not (name.startswith(check.prop + "-") and name.endswith(".json")):
+                continue
+            with open(os.path.join(regress_dir, name)) as handle:
+                record = json.load(handle)
+            outcome = check.judge(ctx, record["case"])
+            regress_runs += 1
+            if outcome["violations"]:
+                first = outcome["violations"][0]
+                regressions.append((first["clause"], os.path.join(regress_dir, name), first["detail"]))
     except core.HarnessError as error:
         harness_problem = str(error)
     finally:
@@ -279,7 +294,7 @@ def main(check_factory, argv=None):
         return 2 if differing else 0
 
     # confirm, make explicit and minimise in a fresh worker; report
-    reported = []
+    reported = list(regressions)
     if merged["violations"]:
         ctx = core.Context(binaries, args.seed, args.tier)
         try:
@@ -337,6 +352,7 @@ def main(check_factory, argv=None):
             "counters": dict(sorted(merged["counters"].items())),
             "components": check.components,
             "known_findings_rerun": known_lines,
+            "regression_replays": regress_runs,
             "first_run_index": args.first,
         }
         coverage.update(check.extra_coverage(merged) if hasattr(check, "extra_coverage") else {})
